@@ -232,7 +232,8 @@ Section Check.
   Definition edge_pairs (l1 l2 : list (option expr * Z)) : list ppair :=
     flat_map (fun a => flat_map (fun b => if lab_eqb (fst a) (fst b) then [((snd a, O), (snd b, O))] else []) l2) l1.
 
-  (* untrusted exploration: produces the candidate relation *)
+  (* untrusted exploration: every pair of positions reachable by reading equal items; pairs that do not
+     match locally are collected too and removed by [prune] *)
   Fixpoint explore (fuel : nat) (todo visited : list ppair) : option (list ppair) :=
     match fuel with
     | O => None
@@ -246,11 +247,19 @@ Section Check.
                      match kind_of g1 q1, kind_of g2 q2 with
                      | KIns _ r1, KIns _ r2 => explore f ((r1, r2) :: rest) (pq :: visited)
                      | KBranch l1, KBranch l2 => explore f (edge_pairs l1 l2 ++ rest) (pq :: visited)
-                     | _, _ => None
+                     | _, _ => explore f rest (pq :: visited)
                      end
-                 | _, _ => None
+                 | _, _ => explore f rest (pq :: visited)
                  end
         end
+    end.
+
+  (* greatest fixed point below the candidate: drop pairs that fail the local test until none does *)
+  Fixpoint prune (fuel : nat) (R : list ppair) : list ppair :=
+    match fuel with
+    | O => R
+    | S f => let R' := filter (pair_ok R) R in
+             if Nat.eqb (length R') (length R) then R else prune f R'
     end.
 End Check.
 
@@ -261,7 +270,7 @@ Definition silent_fuel (g : cfg) : nat := S (S (length (g_blocks g))).
 Definition bisim_from (g1 g2 : cfg) (start : ppair) : bool :=
   let n1 := silent_fuel g1 in let n2 := silent_fuel g2 in
   match explore g1 g2 n1 n2 (cfg_size g1 * cfg_size g2 + cfg_size g1 + cfg_size g2) [start] [] with
-  | Some R => memR R start && is_bisim g1 g2 n1 n2 R
+  | Some R0 => let R := prune g1 g2 n1 n2 (length R0) R0 in memR R start && is_bisim g1 g2 n1 n2 R
   | None => false
   end.
 
@@ -377,8 +386,8 @@ End Sound.
 Theorem bisim_from_sound g1 g2 p1 p2 : bisim_from g1 g2 (p1, p2) = true ->
   forall w, lang_from g1 p1 w <-> lang_from g2 p2 w.
 Proof.
-  unfold bisim_from. destruct (explore _ _ _ _ _ _ _) as [R|]; [|discriminate].
-  intros H w. apply andb_prop in H as [M B]. apply memR_In in M. unfold lang_from. split; intros [q Rn].
+  unfold bisim_from. destruct (explore _ _ _ _ _ _ _) as [R0|]; [|discriminate].
+  cbv zeta. set (R := prune _ _ _ _ _ R0). intros H w. apply andb_prop in H as [M B]. apply memR_In in M. unfold lang_from. split; intros [q Rn].
   - eapply sim12; eassumption.
   - eapply sim21; eassumption.
 Qed.
@@ -390,4 +399,219 @@ Proof.
     + exists e2. split; [reflexivity | apply A; exact L].
     + exists e1. split; [reflexivity | apply B; exact L].
   - split; intros (e & E & _); discriminate.
+Qed.
+
+(* ------------------------------------------------------------------ execution is a function of the word read *)
+(* Any interpretation of the items: [do_ins s x] executes an instruction item (None = fault / leaves the
+   function), [holds s c] says whether a guard is enabled.  Exec/Sem.v is the instance
+   do_ins = exec_op, holds = "den c = 1" (unguarded = enabled). *)
+Section Interp.
+  Variable St : Type.
+  Variable do_ins : St -> item -> option St.
+  Variable holds : St -> option expr -> bool.
+
+  (* states after each item of a word; None = the word is not executable from s *)
+  Fixpoint weval (s : St) (w : list item) : option (list St) :=
+    match w with
+    | [] => Some []
+    | Ins a o :: t => match do_ins s (Ins a o) with
+                      | Some s' => option_map (cons s') (weval s' t)
+                      | None => None
+                      end
+    | Grd c :: t => if holds s c then option_map (cons s) (weval s t) else None
+    end.
+
+  (* a feasible execution of g from s: a word of g that s can execute, with the states it goes through *)
+  Definition feasible (g : cfg) (s : St) (w : list item) (tr : list St) : Prop := lang g w /\ weval s w = Some tr.
+
+  (* [U] may-semantics: graphs with equal languages have the same feasible executions -- the same
+     instruction addresses and operations in the same order, the same states -- from every state *)
+  Theorem lang_eq_feasible g1 g2 : (forall w, lang g1 w <-> lang g2 w) ->
+    forall s w tr, feasible g1 s w tr <-> feasible g2 s w tr.
+  Proof. intros E s w tr. unfold feasible. rewrite (E w). tauto. Qed.
+
+  (* ---- the deterministic executor (must-semantics, as Exec/Sem.v: exactly one enabled guard) ---- *)
+  Inductive outcome := OCut | OEnd | ONoGuard | OAmbiguous | OFault | OSilentLoop.
+
+  Definition enabled (s : St) (l : list (option expr * Z)) := filter (fun ct => holds s (fst ct)) l.
+
+  (* n counts visible steps (instructions and branch decisions); sf bounds silent chains *)
+  Fixpoint pexec (g : cfg) (sf : nat) (n : nat) (p : pos) (s : St) : list (item * St) * outcome :=
+    match n with
+    | O => ([], OCut)
+    | S n' =>
+        match settle g sf p with
+        | None => ([], OSilentLoop)
+        | Some q =>
+            match kind_of g q with
+            | KIns x r => match do_ins s x with
+                          | Some s' => let res := pexec g sf n' r s' in ((x, s') :: fst res, snd res)
+                          | None => ([], OFault)
+                          end
+            | KBranch [] => ([], OEnd)
+            | KBranch l => match enabled s l with
+                           | [] => ([], ONoGuard)
+                           | [ct] => let res := pexec g sf n' (snd ct, O) s in ((Grd (fst ct), s) :: fst res, snd res)
+                           | _ => ([], OAmbiguous)
+                           end
+            | KSilent _ => ([], OSilentLoop)
+            end
+        end
+    end.
+End Interp.
+
+(* guards of every branching point are pairwise distinct (syntactically) *)
+Fixpoint nodup_labs (l : list (option expr * Z)) : bool :=
+  match l with
+  | [] => true
+  | ct :: t => negb (existsb (fun ct' => lab_eqb (fst ct) (fst ct')) t) && nodup_labs t
+  end.
+Definition block_labs (g : cfg) (b : block) : list (option expr * Z) := map edge_lab (out_edges g (b_index b)).
+Definition det (g : cfg) : bool := forallb (fun b => nodup_labs (block_labs g b)) (g_blocks g).
+
+(* ------------------------------------------------------------------ bisimilar deterministic graphs execute alike *)
+Lemma scalar_eqb_refl s : scalar_eqb s s = true.
+Proof.
+  unfold scalar_eqb. rewrite N.eqb_refl, Z.eqb_refl. cbn. destruct (sssa s); cbn; [apply N.eqb_refl | reflexivity].
+Qed.
+Lemma const_eqb_refl c : const_eqb c c = true.
+Proof. unfold const_eqb. rewrite !Z.eqb_refl. reflexivity. Qed.
+Lemma expr_eqb_refl e : expr_eqb e e = true.
+Proof.
+  induction e as [s|c|o l IHl r IHr|o n e IHe|c IHc t IHt e IHe]; cbn.
+  - apply scalar_eqb_refl.
+  - apply const_eqb_refl.
+  - rewrite IHl, IHr. destruct o; reflexivity.
+  - rewrite IHe, Z.eqb_refl. destruct o; reflexivity.
+  - rewrite IHc, IHt, IHe. reflexivity.
+Qed.
+Lemma lab_eqb_refl c : lab_eqb c c = true.
+Proof. destruct c; cbn; [apply expr_eqb_refl | reflexivity]. Qed.
+
+Lemma nodup_labs_NoDup l : nodup_labs l = true -> NoDup (map fst l).
+Proof.
+  induction l as [|ct t IH]; cbn; intros H; [constructor|].
+  apply andb_prop in H as [H1 H2]. constructor; [|apply IH; exact H2].
+  intros I. apply in_map_iff in I as (ct' & E & I).
+  apply negb_true_iff in H1. rewrite <- not_true_iff_false in H1. apply H1.
+  apply existsb_exists. exists ct'. split; [exact I|]. rewrite E. apply lab_eqb_refl.
+Qed.
+
+Lemma NoDup_map_filter {A B} (f : A -> B) (p : A -> bool) l : NoDup (map f l) -> NoDup (map f (filter p l)).
+Proof.
+  induction l as [|x t IH]; cbn; intros H; [constructor|].
+  inversion H as [|y u NI ND]; subst. destruct (p x); cbn; [|apply IH; exact ND].
+  constructor; [|apply IH; exact ND].
+  intros I. apply NI. apply in_map_iff in I as (z & E & I). apply filter_In in I as [I _].
+  apply in_map_iff. exists z. split; assumption.
+Qed.
+
+Lemma find_block_spec bs i b : find_block bs i = Some b -> b_index b = i /\ In b bs.
+Proof.
+  induction bs as [|x t IH]; cbn; intros H; [discriminate|].
+  destruct (Z.eqb_spec (b_index x) i) as [E|E].
+  - injection H as <-. split; [exact E | left; reflexivity].
+  - destruct (IH H) as [A B]. split; [exact A | right; exact B].
+Qed.
+
+Lemma det_kind g q l : det g = true -> kind_of g q = KBranch l -> nodup_labs l = true.
+Proof.
+  unfold det, kind_of. intros D K. rewrite forallb_forall in D.
+  destruct (find_block (g_blocks g) (fst q)) as [b|] eqn:F; [|injection K as <-; reflexivity].
+  destruct (find_block_spec _ _ _ F) as [Ei Ib]. specialize (D _ Ib). unfold block_labs in D. rewrite Ei in D.
+  destruct (nth_error (b_instrs b) (snd q)); [discriminate|].
+  destruct (out_edges g (fst q)) as [|e [|e' es]] eqn:O.
+  - injection K as <-. reflexivity.
+  - destruct (e_cond e); [|discriminate]. injection K as <-. reflexivity.
+  - injection K as <-. exact D.
+Qed.
+
+Section ExecSound.
+  Variable St : Type.
+  Variable do_ins : St -> item -> option St.
+  Variable holds : St -> option expr -> bool.
+  Variables (g1 g2 : cfg) (n1 n2 : nat) (R : list ppair).
+  Hypothesis HB : is_bisim g1 g2 n1 n2 R = true.
+  Hypothesis D1 : det g1 = true.
+  Hypothesis D2 : det g2 = true.
+
+  Let en := enabled St holds.
+
+  Lemma enabled_incl s l1 l2 :
+    (forall c t, In (c, t) l1 -> exists t', In (c, t') l2) -> incl (map fst (en s l1)) (map fst (en s l2)).
+  Proof.
+    intros A x I. apply in_map_iff in I as ([c t] & E & I). cbn in E. subst x.
+    apply filter_In in I as [I H]. cbn in H. destruct (A _ _ I) as [t' I'].
+    apply in_map_iff. exists (c, t'). split; [reflexivity|]. apply filter_In. split; [exact I' | exact H].
+  Qed.
+
+  Lemma enabled_length s l1 l2 : nodup_labs l1 = true -> nodup_labs l2 = true ->
+    (forall c t, In (c, t) l1 -> exists t', In (c, t') l2) ->
+    (forall c t, In (c, t) l2 -> exists t', In (c, t') l1) ->
+    length (en s l1) = length (en s l2).
+  Proof.
+    intros N1 N2 A B.
+    pose proof (NoDup_map_filter fst (fun ct => holds s (fst ct)) l1 (nodup_labs_NoDup _ N1)) as U1.
+    pose proof (NoDup_map_filter fst (fun ct => holds s (fst ct)) l2 (nodup_labs_NoDup _ N2)) as U2.
+    pose proof (NoDup_incl_length U1 (enabled_incl s l1 l2 A)) as L1.
+    pose proof (NoDup_incl_length U2 (enabled_incl s l2 l1 B)) as L2.
+    unfold en, enabled in *. rewrite !map_length in L1, L2. lia.
+  Qed.
+
+  Theorem bisim_exec : forall n p1 p2 s, In (p1, p2) R ->
+    pexec St do_ins holds g1 n1 n p1 s = pexec St do_ins holds g2 n2 n p2 s.
+  Proof.
+    induction n as [|n IH]; intros p1 p2 s I; [reflexivity|].
+    pose proof (pair_ok_of _ _ _ _ _ HB _ I) as OK. unfold pair_ok in OK. cbn [fst snd] in OK.
+    cbn [pexec].
+    destruct (settle g1 n1 p1) as [q1|] eqn:S1; [|discriminate].
+    destruct (settle g2 n2 p2) as [q2|] eqn:S2; [|discriminate].
+    destruct (kind_of g1 q1) as [x1 r1|t1|l1] eqn:K1; [| discriminate |];
+      destruct (kind_of g2 q2) as [x2 r2|t2|l2] eqn:K2; try discriminate.
+    - apply andb_prop in OK as [E M]. apply item_eqb_eq in E. subst x2. apply memR_In in M.
+      destruct (do_ins s x1) as [s'|]; [|reflexivity]. rewrite (IH _ _ s' M). reflexivity.
+    - apply andb_prop in OK as [F12 F21].
+      assert (A : forall c t, In (c, t) l1 -> exists t', In (c, t') l2 /\ In ((t, O), (t', O)) R).
+      { intros c t Il. destruct (sim_edges_step _ _ _ _ _ _ F12 Il) as (t' & I' & M). exists t'. split; assumption. }
+      assert (B : forall c t, In (c, t) l2 -> exists t', In (c, t') l1 /\ In ((t', O), (t, O)) R).
+      { intros c t Il. destruct (sim_edges_step _ _ _ _ _ _ F21 Il) as (t' & I' & M). exists t'. split; assumption. }
+      pose proof (det_kind _ _ _ D1 K1) as N1. pose proof (det_kind _ _ _ D2 K2) as N2.
+      assert (L : length (en s l1) = length (en s l2)).
+      { apply enabled_length; try assumption.
+        - intros c t Il. destruct (A _ _ Il) as (t' & I' & _). exists t'. exact I'.
+        - intros c t Il. destruct (B _ _ Il) as (t' & I' & _). exists t'. exact I'. }
+      destruct l1 as [|a1 l1'], l2 as [|a2 l2'].
+      + reflexivity.
+      + exfalso. destruct a2 as [c t]. destruct (B c t (or_introl eq_refl)) as (t' & [] & _).
+      + exfalso. destruct a1 as [c t]. destruct (A c t (or_introl eq_refl)) as (t' & [] & _).
+      + fold (en s (a1 :: l1')). fold (en s (a2 :: l2')).
+        destruct (en s (a1 :: l1')) as [|[c1 t1] [|? ?]] eqn:E1; destruct (en s (a2 :: l2')) as [|[c2 t2] [|? ?]] eqn:E2;
+          cbn in L; try lia; try reflexivity.
+        assert (I1 : In (c1, t1) (en s (a1 :: l1'))) by (rewrite E1; left; reflexivity).
+        unfold en, enabled in I1. apply filter_In in I1 as [I1 H1]. cbn in H1.
+        destruct (A _ _ I1) as (t' & I2 & M).
+        assert (I2' : In (c1, t') (en s (a2 :: l2'))) by (unfold en, enabled; apply filter_In; split; [exact I2 | exact H1]).
+        rewrite E2 in I2'. destruct I2' as [E|[]]. injection E as <- <-.
+        cbn [fst snd]. rewrite (IH _ _ s M). reflexivity.
+  Qed.
+End ExecSound.
+
+(* [U] what acceptance by the checker means operationally: from the entries, for every interpretation of the
+   items, every initial state and every number of visible steps, the two graphs execute the same instruction
+   items (addresses, operations) through the same states and end with the same outcome. *)
+Definition pexec_entry St do_ins holds (g : cfg) (n : nat) (s : St) :=
+  match g_entry g with
+  | Some e => Some (pexec St do_ins holds g (silent_fuel g) n (e, O) s)
+  | None => None
+  end.
+
+Theorem lang_bisim_exec St do_ins holds g1 g2 :
+  lang_bisim g1 g2 = true -> det g1 = true -> det g2 = true ->
+  forall n s, pexec_entry St do_ins holds g1 n s = pexec_entry St do_ins holds g2 n s.
+Proof.
+  unfold lang_bisim, pexec_entry. intros H D1 D2 n s.
+  destruct (g_entry g1) as [e1|], (g_entry g2) as [e2|]; try discriminate; [|reflexivity].
+  unfold bisim_from in H. destruct (explore _ _ _ _ _ _ _) as [R0|]; [|discriminate].
+  cbv zeta in H. apply andb_prop in H as [M B]. apply memR_In in M.
+  f_equal. eapply bisim_exec; eassumption.
 Qed.
